@@ -550,4 +550,82 @@ theorem tombstone_noop (r : Registry) (a : HttpArgs) (now : Int) (h : (tombstone
 theorem status_ne_200 (o : HttpOut) (h : o.status ≠ 200) : o ≠ .ok := by
   intro hh; rw [hh] at h; exact h rfl
 
+theorem route_redirect_code (method path : String) (code : Nat) (h : route method path = .redirect code) :
+    code = 301 ∨ code = 307 := by
+  unfold route at h
+  split at h
+  · simp at h
+  · split at h
+    · simp only [Route.redirect.injEq] at h
+      rw [← h]; split <;> simp
+    · split at h
+      · split at h <;> simp at h
+      · split at h <;> simp at h
+
+/-- the deterministic part of the HTTP model: not 200 ⇒ nothing changed; the status is one of the listed ones -/
+theorem httpStep_noop (c : Conf) (r : Registry) (method path : String) (a : HttpArgs) (now : Int) :
+    ((httpStep c r method path a now).2 ≠ 200 → (httpStep c r method path a now).1 = r) ∧
+    (httpStep c r method path a now).2 ∈ [200, 301, 307, 400, 404, 405] := by
+  unfold httpStep
+  have st : ∀ o : HttpOut, o.status ≠ 200 → o ≠ .ok := status_ne_200
+  have e400 : ∀ m, (HttpOut.err 400 m).status = 400 := fun _ => rfl
+  split
+  · exact ⟨fun _ => rfl, by simp⟩
+  · exact ⟨fun _ => rfl, by simp⟩
+  · exact ⟨fun _ => rfl, by simp⟩
+  · rename_i code hr
+    refine ⟨fun _ => rfl, ?_⟩
+    rcases route_redirect_code method path code hr with h | h <;> simp [h]
+  · refine ⟨fun h => createTopic_noop r a (st _ h), ?_⟩
+    unfold createTopic; split <;> (try split) <;> (try split) <;> simp [HttpOut.status]
+  · refine ⟨fun h => deleteTopic_noop r a (st _ h), ?_⟩
+    unfold deleteTopic; split <;> (try split) <;> simp [HttpOut.status]
+  · refine ⟨fun h => createChannel_noop r a (st _ h), ?_⟩
+    unfold createChannel
+    split
+    · simp [HttpOut.status]
+    · split
+      · rename_i e hg
+        unfold getTopicChannelArgs at hg
+        split at hg
+        · simp only [Except.error.injEq] at hg; rw [← hg]; simp [HttpOut.status]
+        · split at hg
+          · simp only [Except.error.injEq] at hg; rw [← hg]; simp [HttpOut.status]
+          · split at hg
+            · simp only [Except.error.injEq] at hg; rw [← hg]; simp [HttpOut.status]
+            · split at hg
+              · simp only [Except.error.injEq] at hg; rw [← hg]; simp [HttpOut.status]
+              · simp at hg
+      · simp [HttpOut.status]
+  · refine ⟨fun h => deleteChannel_noop r a (st _ h), ?_⟩
+    unfold deleteChannel
+    split
+    · simp [HttpOut.status]
+    · split
+      · rename_i e hg
+        unfold getTopicChannelArgs at hg
+        split at hg
+        · simp only [Except.error.injEq] at hg; rw [← hg]; simp [HttpOut.status]
+        · split at hg
+          · simp only [Except.error.injEq] at hg; rw [← hg]; simp [HttpOut.status]
+          · split at hg
+            · simp only [Except.error.injEq] at hg; rw [← hg]; simp [HttpOut.status]
+            · split at hg
+              · simp only [Except.error.injEq] at hg; rw [← hg]; simp [HttpOut.status]
+              · simp at hg
+      · split <;> simp [HttpOut.status]
+  · refine ⟨fun h => tombstone_noop r a now (st _ h), ?_⟩
+    unfold tombstone; split <;> (try split) <;> (try split) <;> simp [HttpOut.status]
+  · split
+    · exact ⟨fun _ => rfl, by simp⟩
+    · split
+      · exact ⟨fun _ => rfl, by simp⟩
+      · split
+        · refine ⟨fun _ => rfl, ?_⟩; split <;> simp
+        · refine ⟨fun _ => rfl, ?_⟩; split <;> simp
+  · split
+    · exact ⟨fun _ => rfl, by simp⟩
+    · split <;> exact ⟨fun _ => rfl, by simp⟩
+  · exact ⟨fun _ => rfl, by simp⟩
+
 end Nsq.Proofs.RegistryProto
